@@ -47,6 +47,11 @@ type PropDef struct {
 	Fixed func(t *testing.T, emit func(sc interface{}, out *Outcome))
 	// FixedAllWorkers: the sweep shards itself over VERIF_WORKER / VERIF_WORKERS.
 	FixedAllWorkers bool
+	// CrashCapture: the scenario is written to disk before it runs, so that a crash of the whole
+	// process (a panic in a goroutine nobody recovers, e.g. net/http's background read) leaves a replay file.
+	CrashCapture bool
+	// CrashCaptureIf restricts CrashCapture to some scenarios (cheap codec scenarios are not worth a file write).
+	CrashCaptureIf func(sc interface{}) bool
 }
 
 // KnownFinding is one entry of /verif/known_findings.json.
@@ -375,6 +380,12 @@ func drive(t *testing.T, p *PropDef) {
 		defer traceF.Close()
 	}
 	runOnce := func(sc interface{}) *Outcome {
+		if p.CrashCapture && out != "" && (p.CrashCaptureIf == nil || p.CrashCaptureIf(sc)) {
+			sb, _ := json.Marshal(sc)
+			rf := ReplayFile{Property: p.ID, Class: p.ID + ":process-crash", Sig: "process-crash", Detail: "the process died while this scenario ran", Scenario: sb}
+			b, _ := json.Marshal(rf)
+			os.WriteFile(out+".current", b, 0644)
+		}
 		o := p.Run(t, sc)
 		evalN++
 		if traceF != nil {
